@@ -75,6 +75,17 @@ CHECKS["C05"] = dict(
     technique="Coq proof (nested induction over declarations, fuelled record loop, big-endian word round trips) + vm_compute correspondence in both directions",
     design="7/C05")
 
+CHECKS["C01"] = dict(
+    text="Machine-checked proof (Coq): server (DDS text, 'Data:' separator, encoder model) composed with any byte-preserving or "
+         "reversibly-encoding transport and the client (cut at the first separator, decoder model) returns the served value for "
+         "every declaration and well-formed value - no bound on nesting, ranks or record counts. The plumbing is exercised on the "
+         "real code: generated datasets served by BaseHandler and read back by the real client through in-process WSGI, a requests "
+         "session, a cached session and a saved .dods file, plain and gzip; the theorem's separator hypothesis is evaluated on every DDS.",
+    note=TB + "gzip/requests/requests-cache/webob are exercised, not modelled (the theorem quantifies over any decode.encode = id); "
+              "codec models are those validated by C05; DDS print/parse is C07.",
+    technique="Coq proof (composition of the C05 codec theorems with a leftmost-separator lemma) + end-to-end differential runs over 7 transport configurations",
+    design="7/C01")
+
 NOT_YET = {
 }
 
